@@ -192,7 +192,67 @@ def oracle(ctx, factor, seeds):
                    '%s(%s) = %s is not the partial derivative of its argument' % (op.__name__, e, impl[1]),
                    instantiation={k: str(v) for k, v in list(ins.sf.items()) + list(ins.vf.items())},
                    result_inst=str(rv)[:500], truth=str(truth)[:500])
+    mapping_chain_cases(ctx, o, (60 if ctx.thorough else 14) * factor)
     return o
+
+
+def mapping_chain_cases(ctx, o, n):
+    """logical operators on function-free expressions of the coordinates AND of the components M[i] of a
+    symbolic mapping (sympde/topology/derivatives.py: chain rule df/dM[i]·∂̂_k M[i] + explicit ∂f/∂x̂_k),
+    alone and multiplied by a field; M[i] is instantiated by explicit polynomials with a non-symmetric
+    Jacobian and the result compared with sympy.diff (added after seeded changes C05-6 and C03-5)"""
+    from sympde.topology import Mapping, Square, Cube, ScalarFunctionSpace, element_of
+    from sympde.topology import derivatives as dv
+    from harness.mapenv import MapInst
+    rng = ctx.rng
+    for i in range(n):
+        dim = rng.choice([2, 2, 3])
+        M = Mapping('Mc5%d_%d' % (dim, i % 3), dim=dim)
+        D = M((Square if dim == 2 else Cube)('Ac5%d_%d' % (dim, i % 3)))
+        u = element_of(ScalarFunctionSpace('Vc5%d_%d' % (dim, i % 3), D), name='uc5%d' % dim)
+        xs = list(LOGI[:dim])
+        ops = [dv.dx1, dv.dx2, dv.dx3][:dim]
+        mi, mj = M[rng.randrange(dim)], M[rng.randrange(dim)]
+        x = rng.choice(xs)
+        shapes = [x * mi, x * sympy.sin(mi), mj ** 2 + x ** 3, x * rng.choice(xs) * mi, sympy.exp(mi) * mj + x,
+                  mi * mj, x ** 2 * mi + mj, u * x * mi, u * sympy.sin(mi) + x * mj * u]
+        e = shapes[i % len(shapes)] if i < len(shapes) else rng.choice(shapes)
+        chain = [rng.choice(ops) for _ in range(rng.choice([1, 1, 2]))]
+        key = 'corpus:mapping-chain:%d' % i if i < len(shapes) else None
+        name = '%s(%s)' % ('∘'.join(op.__name__ for op in chain), e)
+        try:
+            with time_limit(20):
+                r = e
+                for op in reversed(chain):
+                    r = op(r)
+        except Timeout:
+            o.count('timeout:mapping-chain')
+            continue
+        except Exception as ex:
+            o.count('refused:mapping-chain:' + type(ex).__name__)
+            continue
+        o.evaluations += 1
+        # explicit components with a non-symmetric Jacobian
+        F = [xs[0] + sympy.Rational(1, 2) * xs[1] + sympy.Rational(1, 10) * xs[0] * xs[1],
+             sympy.Rational(1, 5) * xs[0] + xs[1] + sympy.Rational(1, 10) * xs[0] ** 2]
+        if dim == 3:
+            F = [F[0] + sympy.Rational(1, 3) * xs[2], F[1], xs[2] + sympy.Rational(1, 4) * xs[0] * xs[2]]
+        try:
+            with time_limit(20):
+                ins = MapInst(rng, dim, F, {})
+                ev = ins.inst(e)
+                truth = ev
+                for op in reversed(chain):
+                    truth = sympy.diff(truth, ins.pd[op])
+                rv = ins.inst(r)
+                ok = same_value(rv, truth, xs, rng, numeric=True)
+        except (NotImplementedError, Timeout):
+            o.count('skipped:mapping-chain')
+            continue
+        o.count('mapping-chain:%d' % len(chain))
+        if ok is False:
+            o.fail(key or ('mapping-chain:' + name[:200]),
+                   '%s = %s is not the logical derivative of its argument when M is instantiated by %s' % (name, str(r)[:300], F))
 
 
 def replay(ctx, path):
